@@ -172,6 +172,10 @@ static void upipe_ts_check_input(struct upipe *upipe, struct uref *uref,
     }
     if (size == upipe_ts_check->output_size)
         upipe_ts_check_check(upipe, uref, upump_p);
+    else {
+        upipe_warn_va(upipe, "dropping %zu octets (incomplete TS packet)", size);
+        uref_free(uref);
+    }
 }
 
 /** @internal @This sets the input flow definition.
